@@ -32,10 +32,16 @@ Definition shred_commitment (w : wshred) : list int :=
 
 Inductive sverdict := SOk | SInvalidSignature | SEquivocation.
 Definition sig_verifies (w : wshred) (msg : list int) : bool := w_sig_by_leader w && bytes_eqb (w_sig_msg w) msg.
-Definition validate_shred (cached : option (list int)) (w : wshred) : sverdict :=
+(* [widthchk]: current tree ("fix: reject a shred whose index lies beyond the width spanned by its Merkle path"):
+   the derivation of the root ignores index bits beyond the length of the path *)
+Definition index_in_width (w : wshred) : bool := (w_index w <? 2 ^ N.of_nat (length (w_path w)))%N.
+Definition validate_shred_gen (widthchk : bool) (cached : option (list int)) (w : wshred) : sverdict :=
+  if widthchk && negb (index_in_width w) then SInvalidSignature
+  else
   let msg := shred_commitment w in
   match cached with
   | Some c => if bytes_eqb c msg then SOk
               else if sig_verifies w msg then SEquivocation else SInvalidSignature
   | None => if sig_verifies w msg then SOk else SInvalidSignature
   end.
+Definition validate_shred := validate_shred_gen true.
